@@ -280,6 +280,25 @@ fn to_mat<T: Width>(a: &IM, se: i32) -> DenseMatrix<T> {
 }
 
 /// entries as f64 (exact for both widths), multiplied by the exact power of two `mul`
+/// the matrix actually fed: A * 2^se, plus the tiny entries of the noise pattern where A is zero
+fn fed<T: Width>(r: &Run) -> DenseMatrix<T> {
+    let m = r.a.len();
+    let n = r.a[0].len();
+    let mut v = Vec::with_capacity(m * n);
+    for i in 0..m {
+        for j in 0..n {
+            let mut x = r.a[i][j] as f64 * pow2(r.se);
+            if let Some((ne, pat)) = &r.noise {
+                if r.a[i][j] == 0 && pat[i][j] != 0 {
+                    x = pat[i][j] as f64 * pow2(r.se + ne);
+                }
+            }
+            v.push(T::from_f64(x).unwrap());
+        }
+    }
+    DenseMatrix::from_array(m, n, &v)
+}
+
 fn rows_of<T: Width>(m: &DenseMatrix<T>, mul: f64) -> FM {
     let (r, c) = m.shape();
     (0..r)
@@ -333,6 +352,8 @@ struct Run<'a> {
     a: IM,
     cert: Value,
     se: i32,
+    /// tiny entries (pattern * 2^ne relative to the scale of A) added at zero positions of A
+    noise: Option<(i32, IM)>,
     stats: &'a mut Stats,
 }
 
@@ -357,6 +378,10 @@ impl<'a> Run<'a> {
         o.insert("n".into(), json!(self.a[0].len()));
         o.insert("A".into(), json!(self.a));
         o.insert("cert".into(), self.cert.clone());
+        o.insert("noise".into(), match &self.noise {
+            Some((ne, pat)) => json!({"ne": ne, "pat": pat}),
+            None => json!({"ne": 0, "pat": []}),
+        });
         if let Value::Object(x) = extra {
             for (k, v) in x {
                 o.insert(k, v);
@@ -408,7 +433,7 @@ thread_local! {
 fn ev_lu<T: Width>(r: &mut Run) {
     let n = r.a.len();
     let am = maxabs(&r.a);
-    let a = to_mat::<T>(&r.a, r.se);
+    let a = fed::<T>(r);
     let res = guard(|| a.lu());
     let st = status_of(&res);
     if let Ok(Ok(lu)) = res {
@@ -433,7 +458,7 @@ fn ev_lu<T: Width>(r: &mut Run) {
         r.emit::<T>("LU", json!({}), st, None, true, json!({}));
     }
     // inverse
-    let a = to_mat::<T>(&r.a, r.se);
+    let a = fed::<T>(r);
     let res = guard(|| a.lu().and_then(|lu| lu.inverse()));
     let st = status_of(&res);
     if let Ok(Ok(inv)) = res {
@@ -453,7 +478,7 @@ fn ev_solve<T: Width>(r: &mut Run, method: &str, b: &IM) {
     let n = r.a[0].len();
     let am = maxabs(&r.a);
     let bm = maxabs(b);
-    let a = to_mat::<T>(&r.a, r.se);
+    let a = fed::<T>(r);
     let bb = to_mat::<T>(b, 0);
     let res = match method {
         "lu" => guard(|| a.lu_solve_mut(bb)),
@@ -489,7 +514,7 @@ fn ev_solve<T: Width>(r: &mut Run, method: &str, b: &IM) {
 fn ev_qr<T: Width>(r: &mut Run) {
     let m = r.a.len();
     let n = r.a[0].len();
-    let a = to_mat::<T>(&r.a, r.se);
+    let a = fed::<T>(r);
     let res = guard(|| a.qr());
     let st = status_of(&res);
     if let Ok(Ok(qr)) = res {
@@ -513,7 +538,7 @@ fn ev_qr<T: Width>(r: &mut Run) {
 
 fn ev_chol<T: Width>(r: &mut Run) {
     let n = r.a.len();
-    let a = to_mat::<T>(&r.a, r.se);
+    let a = fed::<T>(r);
     let res = guard(|| a.cholesky());
     let st = status_of(&res);
     if let Ok(Ok(ch)) = res {
@@ -540,7 +565,7 @@ fn ev_svd<T: Width>(r: &mut Run) {
     let m = r.a.len();
     let n = r.a[0].len();
     let am = maxabs(&r.a);
-    let a = to_mat::<T>(&r.a, r.se);
+    let a = fed::<T>(r);
     let res = guard(|| a.svd());
     let st = status_of(&res);
     if let Ok(Ok(svd)) = res {
@@ -884,53 +909,83 @@ fn gen_tall(rng: &mut StdRng, m: usize, n: usize, fam: &str) -> IM {
 }
 
 /// exactly rank-deficient m x n matrix of rank r with its null-space basis
+/// A = M * W with W[:, perm[i]] = e_i (i < r) and W[:, perm[r + j]] = z[:, j]: rank r when M has
+/// full column rank; returns A, the certificate of an r x r non-singular block and the integer
+/// null-space basis with its pivot rows
+fn rankdef_build(mm: &IM, z: &IM, perm: &[usize]) -> Option<(IM, Cert, IM, Vec<usize>)> {
+    let m = mm.len();
+    let r = mm[0].len();
+    let k = z[0].len();
+    let n = r + k;
+    let mut w = vec![vec![0i64; n]; r];
+    for i in 0..r {
+        w[i][perm[i]] = 1;
+    }
+    for j in 0..k {
+        for i in 0..r {
+            w[i][perm[r + j]] = z[i][j];
+        }
+    }
+    let a = matmul(mm, &w);
+    if maxabs(&a) > 16.0 {
+        return None;
+    }
+    // best r x r row subset of M
+    let cols: Vec<usize> = (0..r).collect();
+    let mut best: Option<(Cert, f64)> = None;
+    for rows in subsets(m, r) {
+        if let Some((c, s)) = cert_sub(mm, &rows, &cols) {
+            if best.as_ref().map(|b| s < b.1).unwrap_or(true) {
+                best = Some((c, s));
+            }
+        }
+    }
+    let (mut c, _) = best?;
+    // the certificate lists the sub-matrix with its columns in the order given
+    c.cols = (0..r).map(|i| perm[i]).collect();
+    let mut nb = vec![vec![0i64; k]; n];
+    let mut piv = Vec::new();
+    for j in 0..k {
+        nb[perm[r + j]][j] = 1;
+        for i in 0..r {
+            nb[perm[i]][j] = -z[i][j];
+        }
+        piv.push(perm[r + j]);
+    }
+    Some((a, c, nb, piv))
+}
+
+/// exactly rank-deficient m x n matrix of rank r with its null-space basis
 fn gen_rankdef(rng: &mut StdRng, m: usize, n: usize, r: usize) -> Option<(IM, Cert, IM, Vec<usize>)> {
     for _ in 0..50 {
         let mm = dense(rng, m, r, 2);
-        let k = n - r;
-        let z: IM = dense(rng, r, k, 2);
+        let z: IM = dense(rng, r, n - r, 2);
         let mut perm: Vec<usize> = (0..n).collect();
         perm.shuffle(rng);
-        // W[:, perm[i]] = e_i for i < r ; W[:, perm[r + j]] = z[:, j]
-        let mut w = vec![vec![0i64; n]; r];
-        for i in 0..r {
-            w[i][perm[i]] = 1;
-        }
-        for j in 0..k {
-            for i in 0..r {
-                w[i][perm[r + j]] = z[i][j];
-            }
-        }
-        let a = matmul(&mm, &w);
-        if maxabs(&a) > 16.0 {
-            continue;
-        }
-        // best r x r row subset of M
-        let cols: Vec<usize> = (0..r).collect();
-        let mut best: Option<(Cert, f64)> = None;
-        for rows in subsets(m, r) {
-            if let Some((c, s)) = cert_sub(&mm, &rows, &cols) {
-                if best.as_ref().map(|b| s < b.1).unwrap_or(true) {
-                    best = Some((c, s));
-                }
-            }
-        }
-        if let Some((mut c, _)) = best {
-            c.cols = (0..r).map(|i| perm[i]).collect();
-            // the certificate lists the sub-matrix with its columns in the order given
-            let mut nb = vec![vec![0i64; k]; n];
-            let mut piv = Vec::new();
-            for j in 0..k {
-                nb[perm[r + j]][j] = 1;
-                for i in 0..r {
-                    nb[perm[i]][j] = -z[i][j];
-                }
-                piv.push(perm[r + j]);
-            }
-            return Some((a, c, nb, piv));
+        if let Some(x) = rankdef_build(&mm, &z, &perm) {
+            return Some(x);
         }
     }
     None
+}
+
+/// Deterministic rank-deficient inputs.  The first one is the input on which svd_solve once
+/// returned Ok with NaN rows in f32 below a scale of 2^-37 (subnormal Householder row norm in
+/// svd_mut; repaired by commit 855218f): u * [1,-2,2,-1] with u = [2,-2,-2,2,1,2,-1].  The others
+/// are siblings of rank 1 and 2 in the shapes 7x4, 5x5 and 4x7.
+fn fixed_rankdef() -> Vec<(IM, Cert, IM, Vec<usize>)> {
+    let col = |v: &[i64]| -> IM { v.iter().map(|&x| vec![x]).collect() };
+    let specs: Vec<(IM, IM, Vec<usize>)> = vec![
+        (col(&[2, -2, -2, 2, 1, 2, -1]), vec![vec![-2, 2, -1]], vec![0, 1, 2, 3]),
+        (col(&[1, 2, -1, 2, -2, 1, 2]), vec![vec![2, -1, 1]], vec![2, 0, 3, 1]),
+        (vec![vec![1, 0], vec![0, 1], vec![1, 1], vec![2, -1], vec![-1, 2], vec![1, -2], vec![2, 1]],
+         vec![vec![1, -1], vec![2, 1]], vec![0, 2, 1, 3]),
+        (col(&[1, -1, 2, -2, 1]), vec![vec![2, -1, 1, -2]], vec![0, 1, 2, 3, 4]),
+        (vec![vec![1, 1], vec![1, -1], vec![2, 0], vec![0, 2], vec![-1, 1]],
+         vec![vec![1, 2, -1], vec![-1, 1, 2]], vec![4, 0, 1, 2, 3]),
+        (col(&[1, -2, 2, -1]), vec![vec![2, -2, -2, 2, 1, -1]], vec![0, 1, 2, 3, 4, 5, 6]),
+    ];
+    specs.iter().map(|(mm, z, p)| rankdef_build(mm, z, p).expect("fixed rank-deficient case")).collect()
 }
 
 // ---------------------------------------------------------------------------------------------
@@ -1108,9 +1163,45 @@ fn ladder_tall(rng: &mut StdRng, m: usize, n: usize) -> (IM, Cert) {
     (a, Cert { rows: where_is, cols: (0..n).collect(), adj: c.adj, det: c.det })
 }
 
-fn gen_b(rng: &mut StdRng, m: usize) -> IM {
+/// right-hand sides with 1..4 columns.  Half of them are plain random; the others mix, in every
+/// position, zero columns, repeated columns, unit vectors, and columns exactly orthogonal to the
+/// leading column of A (whose projection on the first Householder reflector is exactly zero)
+fn gen_b(rng: &mut StdRng, a: &IM) -> IM {
+    let m = a.len();
     let p = rng.gen_range(1..=4);
-    dense(rng, m, p, 8)
+    if rng.gen_bool(0.5) {
+        return dense(rng, m, p, 8);
+    }
+    let mut cols: Vec<Vec<i64>> = Vec::new();
+    for _ in 0..p {
+        let c: Vec<i64> = match rng.gen_range(0..6) {
+            0 => vec![0; m],
+            1 if !cols.is_empty() => cols[rng.gen_range(0..cols.len())].clone(),
+            2 => {
+                let mut e = vec![0; m];
+                e[rng.gen_range(0..m)] = if rng.gen_bool(0.5) { 1 } else { -3 };
+                e
+            }
+            3 if m >= 2 => {
+                // w = a_j1 e_i - a_i1 e_j is orthogonal to the first column of A
+                let i = rng.gen_range(0..m);
+                let mut j = rng.gen_range(0..m);
+                if j == i {
+                    j = (i + 1) % m;
+                }
+                let mut w = vec![0; m];
+                w[i] = a[j][0];
+                w[j] = -a[i][0];
+                if a[i][0] == 0 && a[j][0] == 0 {
+                    w[i] = 1;
+                }
+                w
+            }
+            _ => (0..m).map(|_| rnd(rng, 8)).collect(),
+        };
+        cols.push(c);
+    }
+    (0..m).map(|i| (0..p).map(|j| cols[j][i]).collect()).collect()
 }
 
 fn pick_se(rng: &mut StdRng) -> i32 {
@@ -1130,6 +1221,10 @@ thread_local! {
     /// which calls are made for the next inputs (bit set; all by default).  The quick tier makes
     /// only a few calls on the order-64 inputs, whose validation costs TLC seconds per event.
     static CALLS: std::cell::Cell<u32> = std::cell::Cell::new(0xff);
+}
+thread_local! {
+    /// noise pattern for the next input (taken by one_input)
+    static NOISE: std::cell::RefCell<Option<(i32, IM)>> = std::cell::RefCell::new(None);
 }
 const C_LU: u32 = 1;
 const C_SOLVE_LU: u32 = 2;
@@ -1151,13 +1246,13 @@ fn events_for<T: Width>(r: &mut Run, rng: &mut StdRng, rankdef: bool, chol_only:
     }
     if rankdef {
         ev_svd::<T>(r);
-        let b = gen_b(rng, m);
+        let b = gen_b(rng, &r.a.clone());
         if m >= n {
             ev_solve::<T>(r, "svd", &b);
         }
         return;
     }
-    let b = gen_b(rng, m);
+    let b = gen_b(rng, &r.a.clone());
     if m == n {
         if on(C_LU) {
             ev_lu::<T>(r);
@@ -1195,12 +1290,45 @@ fn one_input(out: &mut Out, stats: &mut Stats, rng: &mut StdRng, run: i64, fam: 
              cert: Value, rankdef: bool, chol_only: bool, f32_too: Option<bool>, se: Option<i32>) {
     let se = se.unwrap_or_else(|| pick_se(rng));
     let use32 = f32_too.unwrap_or_else(|| rng.gen_bool(0.4));
-    let mut r = Run { out, run, fam: fam.to_string(), a, cert, se, stats };
+    let noise = NOISE.with(|x| x.borrow_mut().take());
+    let mut r = Run { out, run, fam: fam.to_string(), a, cert, se, noise, stats };
     if use32 {
         events_for::<f32>(&mut r, rng, rankdef, chol_only);
     } else {
         events_for::<f64>(&mut r, rng, rankdef, chol_only);
     }
+}
+
+/// Graded entries inside one matrix: for one certified input in six that has zero entries, tiny
+/// numbers (+-1..3 times 2^ne relative to the scale of A; ne = -60, -83 (~1e-25), -100 in f32 and
+/// -83, -565 (~1e-170), -600 in f64) are written into some of the zero positions (symmetrically
+/// for symmetric A).  They are far below the 2^-10 resolution of the contract, which is therefore
+/// still stated for A; what they exercise is the library's handling of tiny but non-zero
+/// intermediate quantities.  Returns the family name and the float width to use.
+fn maybe_noise(rng: &mut StdRng, a: &IM, certified: bool, fam: &str) -> (String, Option<bool>) {
+    let m = a.len();
+    let n = a[0].len();
+    let zeros = a.iter().flat_map(|r| r.iter()).filter(|&&v| v == 0).count();
+    if !certified || zeros == 0 || rng.gen_range(0..6) != 0 {
+        return (fam.to_string(), None);
+    }
+    let w32 = rng.gen_bool(0.5);
+    let ne = if w32 { [-60, -83, -100][rng.gen_range(0..3)] } else { [-83, -565, -600][rng.gen_range(0..3)] };
+    let sym = m == n && is_sym(a);
+    let mut pat = vec![vec![0i64; n]; m];
+    for i in 0..m {
+        for j in 0..n {
+            if a[i][j] == 0 && (!sym || j <= i) && rng.gen_bool(0.6) {
+                let v = rnd_nz(rng, 3);
+                pat[i][j] = v;
+                if sym {
+                    pat[j][i] = v;
+                }
+            }
+        }
+    }
+    NOISE.with(|x| *x.borrow_mut() = Some((ne, pat)));
+    (format!("{}+noise", fam), Some(w32))
 }
 
 fn gen_random(path: &str) {
@@ -1222,9 +1350,11 @@ fn gen_random(path: &str) {
         };
         let n = if fam == "sym_zero_pivot" || fam == "sym_indef" || fam == "sym_semidef" { n.min(5) } else { n };
         let a = gen_square(&mut rng, n, fam);
-        let cert = cert_json(&cert_full(&a), &None);
+        let c = cert_full(&a);
+        let (name, w) = maybe_noise(&mut rng, &a, c.is_some(), fam);
+        let cert = cert_json(&c, &None);
         run += 1;
-        one_input(&mut out, &mut stats, &mut rng, run, fam, a, cert, false, false, None, None);
+        one_input(&mut out, &mut stats, &mut rng, run, &name, a, cert, false, false, w, None);
     }
     for i in 0..n_tall {
         let fam = TALL_FAMILIES[i % TALL_FAMILIES.len()];
@@ -1236,9 +1366,11 @@ fn gen_random(path: &str) {
             (n, rng.gen_range(n + 1..=8usize))
         };
         let a = gen_tall(&mut rng, m, n, fam);
-        let cert = cert_json(&cert_full(&a), &None);
+        let c = cert_full(&a);
+        let (name, w) = maybe_noise(&mut rng, &a, c.is_some(), fam);
+        let cert = cert_json(&c, &None);
         run += 1;
-        one_input(&mut out, &mut stats, &mut rng, run, fam, a, cert, false, false, None, None);
+        one_input(&mut out, &mut stats, &mut rng, run, &name, a, cert, false, false, w, None);
     }
     for i in 0..n_wide {
         let fam = TALL_FAMILIES[i % TALL_FAMILIES.len()];
@@ -1313,7 +1445,9 @@ fn gen_random(path: &str) {
             let cert = cert_json(&Some(c), &Some((nb, piv)));
             run += 1;
             made += 1;
-            one_input(&mut out, &mut stats, &mut rng, run, "rankdef", a, cert, true, false, None, None);
+            // one in three in f32 at the smallest scale, where row norms approach the subnormal range
+            let (w, se) = if made % 3 == 0 { (Some(true), Some(-40)) } else { (None, None) };
+            one_input(&mut out, &mut stats, &mut rng, run, "rankdef", a, cert, true, false, w, se);
         }
     }
     let n = out.finish();
@@ -1360,6 +1494,15 @@ fn gen_exhaustive(path: &str) {
             one_input(&mut out, &mut stats, &mut rng, run, "exh_sym3b", a, cert, false, true, Some(code % 2 == 1), Some(0));
         }
     }
+    // deterministic rank-deficient cases (see fixed_rankdef)
+    for (a, c, nb, piv) in fixed_rankdef() {
+        for &(w32, se) in &[(true, -37), (true, -40), (true, 0), (false, -40)] {
+            let cert = cert_json(&Some(Cert { rows: c.rows.clone(), cols: c.cols.clone(), adj: c.adj.clone(), det: c.det }),
+                                 &Some((nb.clone(), piv.clone())));
+            run += 1;
+            one_input(&mut out, &mut stats, &mut rng, run, "fixed_rankdef", a.clone(), cert, true, false, Some(w32), Some(se));
+        }
+    }
     let lim = if big { 3i64 } else { 2 };
     for a00 in -lim..=lim {
         for a01 in -lim..=lim {
@@ -1388,8 +1531,14 @@ fn replay(inp: &str, path: &str) {
         let a: IM = serde_json::from_value(e["A"].clone()).unwrap();
         let se = e["se"].as_i64().unwrap() as i32;
         let w32 = e["w"] == "f32";
+        let noise = match e.get("noise") {
+            Some(x) if x["pat"].as_array().map(|p| !p.is_empty()).unwrap_or(false) => {
+                Some((x["ne"].as_i64().unwrap() as i32, serde_json::from_value::<IM>(x["pat"].clone()).unwrap()))
+            }
+            _ => None,
+        };
         let mut r = Run { out: &mut out, run: e["run"].as_i64().unwrap(), fam: e["fam"].as_str().unwrap().to_string(),
-                          a, cert: e["cert"].clone(), se, stats: &mut stats };
+                          a, cert: e["cert"].clone(), se, noise, stats: &mut stats };
         let ev = e["ev"].as_str().unwrap().to_string();
         macro_rules! both {
             ($f:ident $(, $arg:expr)*) => {
